@@ -3,6 +3,7 @@ mod par;
 mod report;
 mod tree;
 mod valmc;
+mod entrymc;
 mod replmc;
 mod scopemc;
 mod lang;
@@ -18,6 +19,9 @@ mod subject;
 
 fn main() {
     let args: Vec<String> = std::env::args().collect();
+    if args.len() >= 2 && args[1] == "--cldb-entry" {
+        entrymc::cldb_entry_main(args[2..].to_vec());
+    }
     if args.len() < 2 {
         eprintln!("usage: vmc <Cxx> [--tier quick|thorough] [--replay file]");
         std::process::exit(2);
@@ -57,12 +61,14 @@ fn main() {
         "C08" => valmc::c08(thorough, replay),
         "C09" => conv::c09(thorough, replay),
         "C10" => scopemc::c10(thorough, replay),
+        "C11" => entrymc::c11(thorough, replay),
         "C12" => dbgmc::c12(thorough, replay),
         "C13" => progmc::c13(thorough, replay),
         "C14" => crashmc::c14(thorough, replay),
         "C15" => parsemc::c15(thorough, replay),
         "C16" => replmc::c16(thorough, replay),
         "C17" => progmc::c17(thorough, replay),
+        "C18" => entrymc::c18(thorough, replay),
         "C20" => valmc::c20(thorough, replay),
         _ => {
             eprintln!("no engine for {}", id);
